@@ -430,3 +430,41 @@ Proof. intros Hv Hn Hd. cbn [configured_cs_typed]. apply larger_chunk_refuted; a
 Theorem typed_discard_invisible dflt n v : n <= v -> n <= dflt ->
   slices n (configured_cs_typed false dflt (Some v)) = slices n v.
 Proof. intros Hv Hd. cbn [configured_cs_typed]. apply slices_capped; assumption. Qed.
+
+(* ---------- scaling: slices (k n) (k cs) = k * slices n cs ---------- *)
+Lemma slices_from_fuel_cs f1 : forall f2 s n cs, 1 <= cs -> n - s <= f1 * cs -> n - s <= f2 * cs ->
+  slices_from f1 s n cs = slices_from f2 s n cs.
+Proof.
+  induction f1 as [|f IH]; intros f2 s n cs Hcs H1 H2.
+  - cbn [slices_from]. destruct f2 as [|g]; [reflexivity|]. cbn [slices_from].
+    destruct (Nat.leb_spec n s); [reflexivity|]. cbn in H1. lia.
+  - destruct f2 as [|g].
+    + cbn [slices_from]. destruct (Nat.leb_spec n s); [reflexivity|]. cbn in H2. lia.
+    + cbn [slices_from]. destruct (Nat.leb_spec n s); [reflexivity|]. f_equal.
+      cbn [Nat.mul] in H1, H2. apply IH; lia.
+Qed.
+
+Lemma slices_from_scale k f : 1 <= k -> forall s n cs,
+  slices_from f (k * s) (k * n) (k * cs) = map (scale_slice k) (slices_from f s n cs).
+Proof.
+  intros Hk. induction f as [|g IH]; intros s n cs; cbn [slices_from]; [reflexivity|].
+  assert (E : (k * n <=? k * s) = (n <=? s)).
+  { destruct (Nat.leb_spec n s) as [H|H].
+    - apply Nat.leb_le. apply Nat.mul_le_mono_l. exact H.
+    - apply Nat.leb_gt. apply Nat.mul_lt_mono_pos_l; lia. }
+  rewrite E. destruct (n <=? s); [reflexivity|]. cbn [map]. unfold scale_slice at 1. cbn [fst snd].
+  rewrite <- Nat.mul_add_distr_l, Nat.mul_min_distr_l, IH. reflexivity.
+Qed.
+
+Theorem slices_scale k n cs : 1 <= k -> 1 <= cs ->
+  slices (k * n) (k * cs) = map (scale_slice k) (slices n cs).
+Proof.
+  intros Hk Hcs. unfold slices.
+  rewrite (slices_from_fuel_cs (k * n) n 0 (k * n) (k * cs)).
+  - pose proof (slices_from_scale k n Hk 0 n cs) as E. rewrite Nat.mul_0_r in E. exact E.
+  - change 1 with (1 * 1). apply Nat.mul_le_mono; assumption.
+  - rewrite Nat.sub_0_r. rewrite <- (Nat.mul_1_r (k * n)) at 1. apply Nat.mul_le_mono_l.
+    change 1 with (1 * 1). apply Nat.mul_le_mono; assumption.
+  - rewrite Nat.sub_0_r. replace (n * (k * cs)) with (k * n * cs) by ring.
+    rewrite <- (Nat.mul_1_r (k * n)) at 1. apply Nat.mul_le_mono_l. exact Hcs.
+Qed.
